@@ -81,23 +81,32 @@ def sampler_correspondence(ctx, n):
     for _ in range(n):
         V = r.randint(2, 6)
         emb.append({'seed': r.randint(0, 10**6), 'V': V, 'D': r.randint(1, 3), 'mid': [r.randint(1, 3) for _ in range(r.randint(1, 2))], 'pad': r.choice([None, 0, V - 1])})
-    res = vlib.run_impl('gs_samplers.py', {'lin': lin, 'emb': emb})
+    conv = []
+    for _ in range(n):
+        K_, dil = r.randint(1, 3), r.randint(1, 2)
+        pad = r.choice([0, 1, 2, 'same', 'valid'])
+        conv.append({'seed': r.randint(0, 10**6), 'G': r.choice([1, 1, 2]), 'cg': r.randint(1, 2), 'og': r.randint(1, 2), 'K': K_, 'stride': 1 if pad == 'same' else r.randint(1, 3),
+                     'dil': dil, 'pad': pad, 'L': (K_ - 1) * dil + 1 + r.randint(0, 4)})
+    res = vlib.run_impl('gs_samplers.py', {'lin': lin, 'emb': emb, 'conv': conv})
+    ci = ['(%d%%nat, %d%%nat, %d%%nat, %d%%nat, %d%%nat, %d%%nat, %d%%nat, %s, %s, %s, %s)' % (x['P'], c['G'] * c['og'], c['cg'], c['K'], c['og'], c['stride'], c['dil'],
+          zll(x['xp']), zll(x['g']), zll(x['gw']), zl(x['gb'])) for c, x in zip(conv, res['conv'])]
     li = ['(%d%%nat, %d%%nat, %d%%nat, %s, %s, %s, %s)' % (x['T'], c['din'], c['dout'], zll(x['x']), zll(x['g']), zll(x['gw']), zl(x['gb'])) for c, x in zip(lin, res['lin'])]
     ei = ['((%d)%%Z, %d%%nat, %d%%nat, %d%%nat, %s, %s, %s)' % (-1 if c['pad'] is None else c['pad'], x['T'], c['V'], c['D'], zl(x['idx']), zll(x['g']), zll(x['gs'])) for c, x in zip(emb, res['emb'])]
     hdr = 'From Coq Require Import ZArith List Bool.\nFrom OV Require Import Model.Layers Exec.RunGs.\nImport ListNotations.\n'
     body = ('Definition lcases : list (nat * nat * nat * list (list Z) * list (list Z) * list (list Z) * list Z) := [\n ' + ';\n '.join(li) + '\n].\n'
             'Definition ecases : list (Z * nat * nat * nat * list Z * list (list Z) * list (list Z)) := [\n ' + ';\n '.join(ei) + '\n].\n'
-            'Eval vm_compute in (bad_idx lin_case_ok 0 lcases).\nEval vm_compute in (bad_idx emb_case_ok 0 ecases).\n')
+            'Definition ccases : list (nat * nat * nat * nat * nat * nat * nat * list (list Z) * list (list Z) * list (list Z) * list Z) := [\n ' + ';\n '.join(ci) + '\n].\n'
+            'Eval vm_compute in (bad_idx lin_case_ok 0 lcases).\nEval vm_compute in (bad_idx emb_case_ok 0 ecases).\nEval vm_compute in (bad_idx conv_case_ok 0 ccases).\n')
     with vlib.CoqLock():
         vlib.coq_make(['Exec/RunGs.vo'])
         rc, out = vlib.coq_eval('cases_c01', hdr, body)
     lists = vlib.parse_eval_lists(out)
-    if rc != 0 or len(lists) != 2:
+    if rc != 0 or len(lists) != 3:
         ctx.obligation('correspondence:grad-sampler-formulas(model=impl, exact)', False, 'case file failed: ' + out[-600:])
         return
-    bad = [('linear', lin[i]) for i in lists[0]] + [('embedding', emb[i]) for i in lists[1]]
-    ctx.traces += len(lin) + len(emb)
-    for c in lin + emb:
+    bad = [('linear', lin[i]) for i in lists[0]] + [('embedding', emb[i]) for i in lists[1]] + [('conv1d', conv[i]) for i in lists[2]]
+    ctx.traces += len(lin) + len(emb) + len(conv)
+    for c in lin + emb + conv:
         ctx.case(c, kind='sampler-direct')
     ctx.obligation('correspondence:grad-sampler-formulas(model=impl, exact)', not bad, '' if not bad else 'sampler output differs from the model formula on %s' % bad[:2])
     for kind, c in bad[:1]:
